@@ -104,7 +104,11 @@ func inlineOf(cols []jlCol) string {
 			parts = append(parts, string(nb)+":"+inlineOf(c.sub))
 			continue
 		}
-		vb, _ := json.Marshal(c.in + ":" + c.out)
+		desc := c.in + ":" + c.out
+		if c.in == c.out && !strings.Contains(c.in, ":") && (len(c.name)+len(c.in))%2 == 0 {
+			desc = c.in // one descriptor, no colon: it stands for both sides
+		}
+		vb, _ := json.Marshal(desc)
 		parts = append(parts, string(nb)+":"+string(vb))
 	}
 	return "{" + strings.Join(parts, ",") + "}"
